@@ -460,8 +460,22 @@ def closedLeOk (s : State) : Bool :=
 def targetOk (s : State) : Bool :=
   exitOk s && closedLeOk s && s.target.handled.all (handledOk s)
 
+def nodupB : List (Nat × Nat) → Bool
+  | [] => true
+  | x :: xs => !xs.contains x && nodupB xs
+
+/-- DELIVERY level: no message — identified by (timer id, k), k = the number of the message-builder
+call that made it — is handled twice (together with `handledOk`: every handled message is the one
+made by the k-th attempt of a sending timer, handled no earlier than that attempt; so a one-shot's
+message is handled at most once), and nothing is left in the mailbox of an actor that is gone. -/
+def deliveredOk (s : State) : Bool :=
+  nodupB (s.target.handled.map fun h => (h.1, h.2.1)) && (s.target.exit.isNone || s.target.mbox.isEmpty)
+
+/-- the per-timer and target clauses -/
+def ok1 (s : State) : Bool := s.timers.all (timerOk s) && targetOk s
+
 /-- C12, clauses that hold for every schedule of the small steps. -/
-def ok (s : State) : Bool := s.timers.all (timerOk s) && targetOk s
+def ok (s : State) : Bool := ok1 s && deliveredOk s
 
 /-- an interval whose target left the active states is gone within one period (wheel deadline) —
 or, if it was created after that off the millisecond grid, at the next millisecond boundary -/
